@@ -443,6 +443,11 @@ func (in *Interp) binop(op token.Token, tx, ty types.Type, x, y V) V {
 		if in.decide(Eq(b, BVConst(0, w))) {
 			in.goPanicStr("integer divide by zero")
 		}
+		if op == token.QUO && w == 64 {
+			if q := in.mulDivIdiom(a, b, signed); q != nil {
+				return q
+			}
+		}
 		if signed {
 			if op == token.QUO {
 				return BV2(OpBVSDiv, a, b)
@@ -856,6 +861,7 @@ func (in *Interp) indexAddr(fr *Frame, x *ssa.IndexAddr) V {
 			idx = Zext(idx, 64)
 		}
 	}
+	idx = in.fold(idx)
 	if idx.Op == OpConst {
 		i := idx.SInt()
 		if i < 0 || i >= int64(n) {
@@ -908,6 +914,7 @@ func (in *Interp) indexOp(fr *Frame, x *ssa.Index) V {
 }
 
 func (in *Interp) indexList(idx *Term, n int, at func(int) V) V {
+	idx = in.fold(idx)
 	if idx.Op == OpConst {
 		i := idx.SInt()
 		if i < 0 || i >= int64(n) {
@@ -941,6 +948,7 @@ func (in *Interp) boundInt(v V, def int, max int) int {
 	if t.S.W < 64 {
 		t = Sext(t, 64)
 	}
+	t = in.fold(t)
 	if t.Op == OpConst {
 		return int(t.SInt())
 	}
@@ -1198,4 +1206,66 @@ func (in *Interp) zeroOrNil(t types.Type) V {
 		return nil
 	}
 	return in.zero(t)
+}
+
+
+// mulDivIdiom recognises the overflow-check idiom (b*c)/b with a constant c
+// and a non-zero b (the caller has excluded b == 0): the quotient is c exactly
+// when b*c does not overflow, which is two comparisons on b.  In the
+// overflowing case the quotient differs from c (if (b*c mod 2^64)/b were c the
+// remainder would be a multiple of 2^64 smaller than |b|, i.e. 0, and the
+// product exact); that is all that is kept of it: the quotient becomes a fresh
+// variable q != c (a sound over-approximation; counterexamples are replayed).
+func (in *Interp) mulDivIdiom(a, b *Term, signed bool) *Term {
+	if a.Op != OpBVMul || len(a.Args) != 2 {
+		return nil
+	}
+	same := func(x, y *Term) bool {
+		if x == y {
+			return true
+		}
+		kx, ky := x.Key(), y.Key()
+		return kx != "" && kx == ky
+	}
+	var c *Term
+	switch {
+	case a.Args[0].Op == OpConst && same(a.Args[1], b):
+		c = a.Args[0]
+	case a.Args[1].Op == OpConst && same(a.Args[0], b):
+		c = a.Args[1]
+	default:
+		return nil
+	}
+	var noOv *Term
+	if signed {
+		cv := c.SInt()
+		const maxI, minI = int64(^uint64(0) >> 1), -int64(^uint64(0)>>1) - 1
+		k := func(v int64) *Term { return BVConst(uint64(v), 64) }
+		switch {
+		case cv == 0:
+			noOv = BoolT(true)
+		case cv == -1:
+			noOv = Not(Eq(b, k(minI)))
+		case cv > 0:
+			noOv = And(BVCmp(OpBVSle, b, k(maxI/cv)), BVCmp(OpBVSle, k(minI/cv), b))
+		default:
+			noOv = And(BVCmp(OpBVSle, k(maxI/cv), b), BVCmp(OpBVSle, b, k(minI/cv)))
+		}
+		return in.overflowedQuotient(noOv, c)
+	}
+	cv := c.Lo
+	if cv == 0 {
+		return c
+	}
+	noOv = BVCmp(OpBVUle, b, BVConst(^uint64(0)/cv, 64))
+	return in.overflowedQuotient(noOv, c)
+}
+
+func (in *Interp) overflowedQuotient(noOv, c *Term) *Term {
+	if noOv.IsTrue() {
+		return c
+	}
+	q := in.freshVar("ovq", c.S)
+	in.define(Not(Eq(q, c)))
+	return Ite(noOv, c, q)
 }
